@@ -419,6 +419,14 @@ func runHarness(prog *ssa.Program, def harnessDef, tier int) (res *HarnessResult
 		res.Asserts = h.asserts
 		res.Inputs = h.inputs
 		if r := recover(); r != nil {
+			if _, ok := r.(budgetError); ok {
+				res.Status = "inconclusive"
+				res.Inconclusive = append(res.Inconclusive, "harness wall-clock budget exhausted before the exploration finished")
+				if len(h.violations) > 0 {
+					res.Status = "violation"
+				}
+				return
+			}
 			if ee, ok := r.(encError); ok {
 				res.Status = "error"
 				res.Error = "not encodable: " + ee.msg
@@ -452,13 +460,21 @@ func runHarness(prog *ssa.Program, def harnessDef, tier int) (res *HarnessResult
 	e.ensureInit(def.pkg)
 	st := e.newState()
 	e.pushFrame(st, def.fn, nil, nil, nil)
-	finals := e.execUntil(st, nil)
-	res.Paths = len(finals)
-	for _, f := range finals {
+	e.onFinal = func(f *State) {
+		res.Paths++
 		switch f.status {
 		case Returned:
+			if f.expectPanic != "" {
+				fl := &Failure{kind: "assert", name: f.expectPanic, msg: "expected panic did not occur", pos: "harness end"}
+				e.recordViolation(f, fl, f.model)
+				break
+			}
 			res.PathsOK++
 		case Panicked:
+			if f.expectPanic != "" {
+				res.PathsOK++
+				break
+			}
 			e.recordViolation(f, f.fail, f.model)
 		case Truncated:
 			if e.unwindViolation {
@@ -467,7 +483,11 @@ func runHarness(prog *ssa.Program, def harnessDef, tier int) (res *HarnessResult
 				h.inconclusive = append(h.inconclusive, "unwinding assertion failed: "+f.fail.name+" at "+f.fail.pos)
 			}
 		case Aborted:
-		case Running:
+		}
+	}
+	finals := e.execUntil(st, nil)
+	for _, f := range finals {
+		if f.status == Running {
 			h.inconclusive = append(h.inconclusive, "state stopped unexpectedly")
 		}
 	}
